@@ -14,8 +14,8 @@ Definition sym_sel (src : str) (s : symbol) : Prop :=
   match s with SRule n sp | SToken n sp => sel src sp n end.
 
 Definition ast_of_spans_select_stmt : Prop :=
-  forall fa l ag, wf_layout l ag ->
-    let A := ast_of fa l ag in
+  forall fa fp l ag, wf_layout l ag ->
+    let A := ast_of fa fp l ag in
     let src := print l ag in
     (* start rule, rule names: the name *)
     (forall n sp, a_start A = Some (n, sp) -> sel src sp n) /\
@@ -41,3 +41,66 @@ Definition ast_of_spans_select_stmt : Prop :=
     (forall v sp, a_expectrr A = Some (v, sp) -> exists ds, sel src sp ds /\ wf_numeral ds v) /\
     (* actions, with the repaired span: the action text *)
     (fa = true -> Forall (fun p => action_ok src (p_action p)) (a_prods A)).
+
+(* ======================================================================== *)
+(*  Production spans (/repo 69c4b9b)                                          *)
+(* ======================================================================== *)
+(* the printed items of a production — its %empty, its symbols, its %prec TOKEN —
+   WITHOUT the layout that follows the last of them *)
+Fixpoint syms_core (pl : play) (k : nat) (ss : list asym) : str :=
+  match ss with
+  | [] => []
+  | s :: ss' =>
+      match ss' with
+      | [] => print_sym pl k s
+      | _ :: _ => print_sym pl k s ++ pg_sym pl k ++ syms_core pl (S k) ss'
+      end
+  end.
+Definition prod_core (pl : play) (p : aprod) : str :=
+  match ap_prec p with
+  | Some t => print_empty pl p ++ print_syms pl 0 (ap_syms p) ++ kw_prec ++ pg_prec1 pl ++ print_tok (pq_prec pl) t
+  | None =>
+      match ap_syms p with
+      | [] => if uses_empty pl p then kw_empty else []
+      | _ :: _ => syms_core pl 0 (ap_syms p)
+      end
+  end.
+
+(* every production of the grammar with the layout choices it is printed under, in source order *)
+Fixpoint block_prods (rl : rlay) (pi : nat) (ps : list aprod) : list (play * aprod) :=
+  match ps with
+  | [] => []
+  | p :: ps' => (r_play rl pi, p) :: block_prods rl (S pi) ps'
+  end.
+Fixpoint all_prods (l : layout) (r : nat) (rs : list arule) : list (play * aprod) :=
+  match rs with
+  | [] => []
+  | x :: rs' => block_prods (rlay_of l r) 0 (ar_prods x) ++ all_prods l (S r) rs'
+  end.
+
+(* the production spans of [a] select, production by production, the items' text *)
+Definition prod_spans_core (src : str) (a : gast) (xs : list (play * aprod)) : Prop :=
+  Forall2 (fun pr x => sel src (p_span pr) (prod_core (fst x) (snd x))) (a_prods a) xs.
+
+(* printer side (no parser involved): with the repaired end of the span the offsets of [ast_of]
+   delimit exactly the items' text — with or without an action, whatever layout (blanks,
+   newlines, comments) stands between the last item and the action's brace or the terminator;
+   a production without any item has an empty span *)
+Definition ast_of_prod_spans_stmt : Prop :=
+  forall fa l ag, prod_spans_core (print l ag) (ast_of fa true l ag) (all_prods l 0 (ag_rules ag)).
+
+(* parser side: what the parser (repaired production span, either action-span variant) builds
+   from the printed text of a well-formed pair *)
+Definition prod_span_ends_after_last_symbol_stmt : Prop :=
+  forall k fa l ag, wf_agram k ag -> wf_layout l ag ->
+    exists A w,
+      run_case true fa true k (print l ag) = Done (TResult A [] w) /\
+      prod_spans_core (print l ag) A (all_prods l 0 (ag_rules ag)).
+
+(* the code before 69c4b9b (fp = false): refuted by a production followed by blanks, a comment
+   and an action — the span runs up to the brace *)
+Definition prod_span_action_layout_refuted_stmt : Prop :=
+  exists l ag, wf_agram KOriginal ag /\ wf_layout l ag /\
+    forall fa, exists A w,
+      run_case true fa false KOriginal (print l ag) = Done (TResult A [] w) /\
+      ~ prod_spans_core (print l ag) A (all_prods l 0 (ag_rules ag)).
